@@ -2,7 +2,7 @@
    ops:
      case <id>
      enc <ch> <rate> <quality|managed nominal> <sig> <seed> <pagemode> <fill> <chunk1> <chunk2> ... (a chunk of 0 is not allowed; the list is the partition of N)
-         quality: a float in [-0.1,1]; or "m<nominal>" for vorbis_encode_init(ch,rate,-1,nominal,-1)
+         quality: a float in [-0.1,1]; or "m<nominal>" for vorbis_encode_init(ch,rate,-1,nominal,-1); or "M<max>:<nominal>:<min>" for hard limits
    answers (one line per API call of the encoder, then the decode side):
      init rc=.. bs0=.. bs1=..
      buffer n=.. cur=.. storage=..
@@ -30,7 +30,13 @@ static int c04_main(int argc,char **argv){
       memset(&P,0,sizeof P); P.channels=ch; P.sig=atoi(tok[4]);
       mk_rng_state=(uint32_t)(atol(tok[5])*2654435761u+99u); if(!mk_rng_state)mk_rng_state=1;
       vorbis_info_init(&vi);
-      if(tok[3][0]=='m') rc=vorbis_encode_init(&vi,ch,rate,-1,atol(tok[3]+1),-1);
+      if(tok[3][0]=='Q'){ /* a quality set-up capped by a hard maximum: the signal's natural rate may be far above the cap */
+        double q=0.4; long mxk=48; struct ovectl_ratemanage2_arg ai; sscanf(tok[3]+1,"%lf:%ld",&q,&mxk);
+        rc=vorbis_encode_setup_vbr(&vi,ch,rate,(float)q);
+        if(!rc){ vorbis_encode_ctl(&vi,OV_ECTL_RATEMANAGE2_GET,&ai); ai.management_active=1; ai.bitrate_limit_max_kbps=mxk; ai.bitrate_limit_min_kbps=0; ai.bitrate_average_kbps=0; ai.bitrate_average_damping=1.5; ai.bitrate_limit_reservoir_bits=mxk*2000; ai.bitrate_limit_reservoir_bias=.1;
+          rc=vorbis_encode_ctl(&vi,OV_ECTL_RATEMANAGE2_SET,&ai); if(!rc)rc=vorbis_encode_setup_init(&vi); }
+      }else if(tok[3][0]=='M'){ long mx=-1,nm=-1,mn=-1; sscanf(tok[3]+1,"%ld:%ld:%ld",&mx,&nm,&mn); rc=vorbis_encode_init(&vi,ch,rate,mx,nm,mn); } /* hard limits */
+      else if(tok[3][0]=='m') rc=vorbis_encode_init(&vi,ch,rate,-1,atol(tok[3]+1),-1);
       else rc=vorbis_encode_init_vbr(&vi,ch,rate,atof(tok[3]));
       if(rc){ printf("init rc=%s\n",ovname(rc)); vorbis_info_clear(&vi); free(line); continue; }
       ci=vi.codec_setup;
